@@ -12,7 +12,7 @@ func init() {
 		"verdicts compared with the reference model (length in characters); non-trivial = differs from the base document; distinct = (source hash, document)"
 }
 
-var c06Devs = []string{"LEN_BYTES", "ZERO_LIMIT_IGNORED"}
+var c06Devs = []string{"NULLABLE_DEF_UNENFORCED", "LEN_BYTES", "ZERO_LIMIT_IGNORED"}
 
 func c06(ctx *Ctx) {
 	runBehaviour(ctx, behaviour{Name: "str", Cases: c06Cases(ctx.Level), K: 1, Devs: c06Devs})
@@ -56,8 +56,8 @@ func c06Cases(level int) []SCase {
 				out = append(out, SCase{ID: "C06/props/" + name, Cfg: baseCfg(), Axes: ax("props"),
 					Schema: J{"type": "object", "properties": J{"r": l, "o": l, "no": nl, "nr": nl2}, "required": A{"r", "nr"}}})
 				out = append(out, SCase{ID: "C06/def/" + name, Cfg: baseCfg(), Axes: ax("def"),
-					Schema: J{"type": "object", "properties": J{"d": J{"$ref": "#/$defs/D"}, "do": J{"$ref": "#/$defs/D"}, "da": J{"type": "array", "items": J{"$ref": "#/$defs/D"}}},
-						"required": A{"d"}, "$defs": J{"D": l}}})
+					Schema: J{"type": "object", "properties": J{"d": J{"$ref": "#/$defs/D"}, "do": J{"$ref": "#/$defs/D"}, "da": J{"type": "array", "items": J{"$ref": "#/$defs/D"}}, "dn": J{"$ref": "#/$defs/DN"}},
+						"required": A{"d"}, "$defs": J{"D": l, "DN": nl}}})
 				out = append(out, SCase{ID: "C06/root/" + name, Cfg: baseCfg(), Axes: ax("root"), Schema: space.Clone(l)})
 				if level >= 1 {
 					out = append(out, SCase{ID: "C06/nested/" + name, Cfg: baseCfg(), Axes: ax("nested"),
